@@ -504,17 +504,67 @@ def check_handshake(P, R):
                       "(res is assigned as a whole afterwards and .fix is not set from it): dt_dtdiff never credits the borrowed day and "
                       "the printed components fall one day short" % fname, g["stmts"][0] if g["stmts"] else None)
     R.floor(rule, "borrowing cases of dt_ddiff", n, 4)
-    # consumer: the flag selects a shift by one day's seconds
-    okc = False
+    # consumer: in the branch of dt_dtdiff that calls dt_ddiff with the requested calendar type, the time part becomes
+    #   flip:  dt1 = neg ? -dt : dt              (regardless of the borrow)
+    #   then:  fix ? dt1 - sgn(dt1) * 86400 : dt1
+    # checked as a polynomial identity on every path of that statement list
+    import conserve
+    from conserve import Poly, Summariser, Path, nz_sym, neg_sym
+    branch = None
     for x in cons.walk():
-        if x.get("k") == "ConditionalOperator":
-            if any(y.get("k") == "MemberExpr" and y.get("n") == "fix" for y in walk(x["c"][0])) and \
-                    sum(1 for y in walk(x) if const_of(y) == 86400) >= 2:
-                okc = True
+        if x.get("k") == "IfStmt":
+            then = x["c"][1]
+            if then is not None and then.get("k") == "CompoundStmt":
+                direct = [s_ for s_ in kids(then)]
+                if any(y.get("k") == "CallExpr" and y.get("callee") == "dt_ddiff" and const_of(call_args(y)[0]) is None
+                       for s_ in direct for y in walk(s_)) and not any(s_.get("k") == "IfStmt" and any(
+                           y.get("k") == "CallExpr" and y.get("callee") == "dt_ddiff" for y in walk(s_)) for s_ in direct):
+                    branch = then
+    if branch is None:
+        raise AnalysisBroken("%s: the calendar-duration branch of dt_dtdiff was not recognised" % rule)
+    dtv = None
+    for x in cons.walk():
+        if x.get("k") == "Var" and x.get("n") == "dt":
+            dtv = x["d"]
+    resv = [x["d"] for x in cons.walk() if x.get("k") == "Var" and x.get("n") == "res"]
+    if dtv is None or not resv:
+        raise AnalysisBroken("%s: variables of dt_dtdiff not recognised" % rule)
+    resv = resv[0]
+    sm = Summariser(cons)
+    sm.lenient_if = True
+    try:
+        paths = sm.run(kids(branch), [Path()])
+    except AnalysisBroken as e:
+        raise AnalysisBroken("%s: %s" % (rule, e))
+    D = conserve.inp(dtv)
+    N = nz_sym(conserve.inp((resv, "neg")))
+    F = nz_sym(conserve.inp((resv, "d.fix")))
+    one = Poly.const(1)
+    D1 = (one - N) * D + N * (-D)
+    Pp, Qq = neg_sym(-D1), neg_sym(D1)
+    day = Poly.const(86400)
+    comp = Pp * (D1 - day) + (one - Pp) * (Qq * (D1 + day))
+    expect = (one - F) * D1 + F * comp
+    # where dt1 is neither positive nor negative it is 0: writing 0 or leaving dt1 alone is the same thing
+    comp_b = comp + (one - Pp) * (one - Qq) * D1
+    expect_b = (one - F) * D1 + F * comp_b
+    okc = bool(paths)
+    why = None
+    for p_ in paths:
+        got = p_.env.get(dtv, D)
+        exp, exp_b = expect, expect_b
+        for kk, vv in p_.env.items():
+            if isinstance(kk, tuple) and kk and kk[0] == "fixed":
+                exp, exp_b = exp.subst(kk[1], vv), exp_b.subst(kk[1], vv)
+        if (got - exp) and (got - exp_b):
+            okc = False
+            why = got - exp
     if okc:
-        R.ob(rule, "dt_dtdiff credits / debits 86400 s when res.d.fix is set", True)
+        R.ob(rule, "dt_dtdiff: time part = (neg ? -dt : dt), then minus sgn * 86400 iff the date part borrowed a day (all %d paths)" % len(paths), True)
     else:
-        R.finding(rule, cons, "consumer", "dt_dtdiff no longer shifts the time part by one day when the date part reports a borrow")
+        R.finding(rule, cons, "consumer", "the time part dt_dtdiff stores next to a calendar duration is not `flip the sign if the date part "
+                  "is negative, then take one day off its magnitude iff a day was borrowed`; it differs by %s"
+                  % (why.text(sm.names)[:240] if why is not None else "?"), branch)
 
 
 def check(P, R, tier):
